@@ -439,6 +439,7 @@ MALFORMED_RECIPE = [
     ("exclude", [L("bool", True), L("int", 5), L("str", "nonsense"), L("seq", [L("none")], tuple=True)]),
     ("use_undocumented_features", [L("bool", True)]),
     ("nosuchkeyword", [L("int", 1)]),
+    ("interval", [L("int", 0), L("bool", False), L("str", ""), L("none")]),
     ("byeaster", [L("int", 1), L("str", "MO(ABCDE)")]),
     ("bysetpos", [L("int", 1), L("str", "1,2")]),
     ("byweekno", [L("int", 30), L("str", "1")]),
@@ -1185,6 +1186,8 @@ def ref_build(kw, quirks, now, memo):
         until = _ref_until(un, start, quirks)
     iv, ct = g("interval"), g("count")
     interval = 1 if iv is None else _plain(iv)
+    if not interval:
+        raise Reject("interval must not be zero or empty (the engine would never advance)")
     count = None if ct is None else _plain(ct)
     cache = False if g("cache") is None else _plain(g("cache"))
     try:
@@ -1596,6 +1599,9 @@ def _oracle_direct(case, obs):
         want = dflt if e is None else (enc_scalar(_plain(e)) if e["t"] in ("none", "bool", "int", "str") else ["other"])
         if rr.get(k) != want:
             return f"wiring: engine keyword {k}={rr.get(k)} but the recipe keyword {k} is {want}"
+    iv = kwget(case["kw"], "interval")
+    if iv is not None and _ref_falsy(iv):
+        return f"wiring: the rule was built with the falsy interval {iv} (the engine never advances with it)"
     if rr.get("wkst") != [6, None]:
         return f"wiring: wkst={rr.get('wkst')} (expected SU)"
     # precision rule on the stand-in engine's two values
